@@ -80,3 +80,94 @@ func ZZ_C17_chainHash() {
 	}
 	_ = key.MinimumT
 }
+
+func init() { zz.Register("ZZ_C17_groupHash", ZZ_C17_groupHash) }
+
+func zzSymGroup(sch *crypto.Scheme, pfx string, n, ncoef, idLen int) *key.Group {
+	g := &key.Group{Scheme: sch, Period: 30 * time.Second}
+	for i := 0; i < n; i++ {
+		id := &key.Identity{Key: zzfake.PointFromBytes(sch, zz.Bytes(fmt.Sprintf("%s.node%d.key", pfx, i), 2)), Addr: fmt.Sprintf("n%d:1", i), Scheme: sch}
+		g.Nodes = append(g.Nodes, &key.Node{Identity: id, Index: zz.U32(fmt.Sprintf("%s.node%d.index", pfx, i))})
+	}
+	for i := 0; i < n; i++ {
+		for j := i + 1; j < n; j++ {
+			zz.Assume(g.Nodes[i].Index != g.Nodes[j].Index)
+		}
+	}
+	g.Threshold = int(zz.U32(pfx + ".threshold"))
+	g.GenesisTime = zz.I64(pfx + ".genesis")
+	g.TransitionTime = zz.I64(pfx + ".transition")
+	if ncoef > 0 {
+		g.PublicKey = &key.DistPublic{}
+		for i := 0; i < ncoef; i++ {
+			g.PublicKey.Coefficients = append(g.PublicKey.Coefficients, zzfake.PointFromBytes(sch, zz.Bytes(fmt.Sprintf("%s.coef%d", pfx, i), 2)))
+		}
+	}
+	g.ID = zz.String(pfx+".id", idLen)
+	return g
+}
+
+// ZZ_C17_groupHash: the group hash is independent of listing order and commits to every member key
+// and index, threshold, genesis/transition time, distributed key and id.
+func ZZ_C17_groupHash() {
+	sch := zzSchemeParam()
+	n, nc := zz.Param("n", 2), zz.Param("ncoef", 1)
+	a := zzSymGroup(sch, "a", n, nc, zz.Param("id_a", 2))
+	b := zzSymGroup(sch, "b", zz.Param("n_b", n), zz.Param("ncoef_b", nc), zz.Param("id_b", 2))
+
+	// order independence: the same members listed in another order
+	perm := &key.Group{Scheme: sch, Period: a.Period, Threshold: a.Threshold, GenesisTime: a.GenesisTime, TransitionTime: a.TransitionTime, PublicKey: a.PublicKey, ID: a.ID}
+	rot := zz.Param("rot", 1)
+	for i := range a.Nodes {
+		perm.Nodes = append(perm.Nodes, a.Nodes[(i+rot)%len(a.Nodes)])
+	}
+	if zz.Param("reverse", 0) == 1 {
+		for i, j := 0, len(perm.Nodes)-1; i < j; i, j = i+1, j-1 {
+			perm.Nodes[i], perm.Nodes[j] = perm.Nodes[j], perm.Nodes[i]
+		}
+	}
+	hperm := perm.Hash()
+	ha := a.Hash()
+	zz.Assert("independent_of_listing_order", bytes.Equal(ha, hperm))
+
+	hb := b.Hash()
+	sameHash := bytes.Equal(ha, hb)
+	// after Hash() both node lists are sorted by index: compare position-wise
+	nodesEq := len(a.Nodes) == len(b.Nodes)
+	idxEq, keyEq := nodesEq, nodesEq
+	if nodesEq {
+		for i := range a.Nodes {
+			idxEq = zz.And(idxEq, a.Nodes[i].Index == b.Nodes[i].Index)
+			keyEq = zz.And(keyEq, a.Nodes[i].Key.Equal(b.Nodes[i].Key))
+		}
+	}
+	thrEq := uint32(a.Threshold) == uint32(b.Threshold)
+	genEq := a.GenesisTime == b.GenesisTime
+	trEq := a.TransitionTime == b.TransitionTime
+	pkEq := (a.PublicKey == nil) == (b.PublicKey == nil)
+	if pkEq && a.PublicKey != nil {
+		pkEq = a.PublicKey.Equal(b.PublicKey)
+	}
+	idEq := common.CompareBeaconIDs(a.ID, b.ID)
+	and := func(xs ...bool) bool {
+		r := true
+		for _, x := range xs {
+			r = zz.And(r, x)
+		}
+		return r
+	}
+	zz.Assert("determinism", zz.Implies(and(idxEq, keyEq, thrEq, genEq, trEq, pkEq, idEq), sameHash))
+	zz.Assert("sensitive_to_member_index", zz.Implies(and(sameHash, nodesEq, keyEq, thrEq, genEq, trEq, pkEq, idEq), idxEq))
+	zz.Assert("sensitive_to_member_key", zz.Implies(and(sameHash, nodesEq, idxEq, thrEq, genEq, trEq, pkEq, idEq), keyEq))
+	zz.Assert("sensitive_to_threshold", zz.Implies(and(sameHash, idxEq, keyEq, genEq, trEq, pkEq, idEq), thrEq))
+	zz.Assert("sensitive_to_genesis_time", zz.Implies(and(sameHash, idxEq, keyEq, thrEq, trEq, pkEq, idEq), genEq))
+	zz.Assert("sensitive_to_transition_time", zz.Implies(and(sameHash, idxEq, keyEq, thrEq, genEq, pkEq, idEq), trEq))
+	zz.Assert("sensitive_to_public_key", zz.Implies(and(sameHash, idxEq, keyEq, thrEq, genEq, trEq, idEq), pkEq))
+	zz.Assert("sensitive_to_id", zz.Implies(and(sameHash, idxEq, keyEq, thrEq, genEq, trEq, pkEq), idEq))
+	// membership size: comparable only between groups of the same shape (same optional parts present);
+	// across shapes a collision needs a digest with chosen structure, which the injective-hash model
+	// cannot rule out and the property (single-parameter changes) does not speak about.
+	idA, idB := common.IsDefaultBeaconID(a.ID), common.IsDefaultBeaconID(b.ID)
+	shapeEq := and((a.PublicKey == nil) == (b.PublicKey == nil), (a.TransitionTime == 0) == (b.TransitionTime == 0), idA == idB, idA || len(a.ID) == len(b.ID))
+	zz.Assert("sensitive_to_membership_size", zz.Implies(and(sameHash, shapeEq), nodesEq))
+}
